@@ -6,7 +6,13 @@
 (* of Bank.tla.  Events:                                                   *)
 (*   [op |-> "reg", c, out]         class statement of c: "ok" / "rejected" *)
 (*   [op |-> "get", via, t, n, res] via[ref] answered class res (0 = the    *)
-(*                                  missing-provider error)                *)
+(*                                  missing-provider error; -1 = some      *)
+(*                                  other exception).  t = 3 / 4: a        *)
+(*                                  reference nobody provides, numbered by *)
+(*                                  the shape of its module path (Bank!    *)
+(*                                  URefsOf); the trace also says which    *)
+(*                                  uninstalled search path (`ghost`) the  *)
+(*                                  root interface was configured with.    *)
 (* <<"VERDICT", trace, matched events, length>>                            *)
 (***************************************************************************)
 EXTENDS Bank, IOUtils, TLCExt
@@ -18,6 +24,7 @@ E == Tr.events[l]
 
 TInit == /\ tid \in 1..Len(Batch.traces) /\ l = 1
          /\ u = Uni(Batch.traces[tid].cls, <<0>>)
+         /\ Batch.traces[tid].ghost \in GhostsAll    \* (the requirement is the same under each of them)
          /\ att = <<>> /\ acc = {} /\ imp = {} /\ gets = 0 /\ hist = <<>>
 TReg == /\ l <= Len(Tr.events) /\ E.op = "reg"
         /\ Register(E.c)
@@ -25,6 +32,7 @@ TReg == /\ l <= Len(Tr.events) /\ E.op = "reg"
         /\ l' = l + 1 /\ UNCHANGED tid
 TGet == /\ l <= Len(Tr.events) /\ E.op = "get"
         /\ E.via \in Vias
+        /\ E.t \in {3, 4} => <<E.t, E.n>> \in URefsOf(0..Len(u.cls))
         /\ E.res = Look(E.via, <<E.t, E.n>>)
         /\ l' = l + 1 /\ UNCHANGED <<u, att, acc, imp, gets, hist, tid>>
 TNext == TReg \/ TGet
